@@ -441,7 +441,7 @@ impl KeyValueStore {
         let mut mem_scan = mem.range_scan(start_bound, end_bound, timestamp)?;
         mem_scan.seek_to_first()?;
         cursors.push(Box::new(mem_scan));
-        if let Some(imm) = imm {
+        if let Some(imm) = imm.as_ref() {
             let mut imm_scan = imm.range_scan(start_bound, end_bound, timestamp)?;
             imm_scan.seek_to_first()?;
             cursors.push(Box::new(imm_scan));
@@ -451,6 +451,8 @@ impl KeyValueStore {
         let cursor = MergingCursor::new(cursors)?;
         let cursor = PruningCursor::new(cursor, timestamp)?;
         let cursor = BoundsCursor::new(cursor, start_bound, end_bound)?;
-        Ok(cursor)
+        // NOTE:  The cursor reads the memtables' skip lists and opens SSTs of this version lazily.
+        // Hand them out together, or a flush / compaction frees them under the caller.
+        Ok(crate::tree::HoldingCursor::new(cursor, (mem, imm, version)))
     }
 }
